@@ -1,19 +1,19 @@
 CLAIMED = {
- "C04": dict(engine="K", ref="5/C04",
-   technique="Kani function contracts (requires/ensures, proof_for_contract, stub_verified) on the real mode.rs, CBMC over all u32",
+ "C04": dict(engine="K+F", ref="5/C04",
+   technique="Kani function contracts (requires/ensures, proof_for_contract, stub_verified) on the real mode.rs, CBMC over all u32; capability table / layout fragments and check_capability over all u32; has_extension and is_hidden on bounded names",
    text="Every mode decoder behind the permission / suid / sgid / file-type columns and the 10-character mode string is "
         "proved against a POSIX/`ls -l` specification for all 2^32 st_mode values (no bound, no loop unwinding limit): leaf "
         "predicates by their own contract, composites and the exactly-one-type lemma against the callees' contracts. This is the "
-        "part of C04 that is pure computation; the lstat/content side is the OS and is not claimed.",
+        "part of C04 that is pure computation; the lstat/content side is the OS and is not claimed. Also: capability bit k names capability k of linux/capability.h for all 41, vfs_cap_data layout, flag letters; extension-class suffix test and dot-file test on bounded names.",
    note="Trusted: Kani/CBMC, rustc, std::fs::Metadata::mode (stubbed by a symbolic value), zip-entry mode source. Not covered: "
         "size/uid/gid/inode/mtime/xattr/digest/line_count columns, name decomposition, extension classes (see evidence.not_covered)."),
 
  "C01": dict(engine="F", ref="5/C01",
-   technique="Kani full-domain harnesses on the depth-window fragments of visit_dir extracted verbatim each run",
+   technique="Kani full-domain harnesses on the depth-window fragments of visit_dir and on the verbatim bodies of the per-root loop, the visit_dir prologue and ok_to_visit_dir hosted on shim types",
    text="The three arithmetic pieces of the depth window - level formula, report gate, descend gate - are extracted from visit_dir on "
         "every run and proved for all u32 values against the statement's window (level 1 = directly inside the root; reported iff "
         "min/max satisfied), plus the induction step that combines them. Unbounded over the integers involved; the traversal skeleton "
-        "that uses the gates is not verified.",
+        "that uses the gates is not verified. Added: every root is traversed once with its own options whatever an earlier root left; a directory is skipped up front only when following symlinks and already visited; ok_to_visit_dir enters a directory iff its own inode is unseen and it is not an unfollowed symlink.",
    note="Trusted: the skeleton of visit_dir around the gates (T5), canonical_path/calc_depth, read_dir. Not covered: exactly-once, order, "
         "symlinks, root parsing."),
  "C02": dict(engine="F+V", ref="5/C02",
@@ -44,14 +44,14 @@ CLAIMED = {
    text="19 real methods of impl Parser (incl. parse_fields and parse_root_options), extracted verbatim on every run, are proved free of unwrap-on-None/Err, out-of-range indexing and usize underflow AND terminating (measure: tokens left, then recursion level; every loop iteration consumes a token) for every token vector, each against its callees' contracts (cursor never moves backwards, token vector unchanged, Ok implies Some and progress). error_count -> exit status is proved to be 0 iff no error else 1 for all i32, and the parse-error arm to return 2.",
    note="Not covered: parse_roots, Parser::parse, the lexer, evaluator-side literal errors (regex, dates), termination of the search. Assumption A1: cursor < usize::MAX."),
  "C13": dict(engine="F", ref="5/C13",
-   technique="Kani full-domain harnesses on the DateTime arm of conforms extracted each run",
+   technique="Kani full-domain harnesses on the DateTime arm of conforms (verbatim, shim operands with sub-second part) and on the time-of-day block of parse_datetime extracted each run",
    text="For all i64 entry times and all intervals a <= b the date arm is proved to implement = / != / < / > / <= / >= exactly as the "
-        "statement defines them, and exactly one of <, =, > holds.",
+        "statement defines them (whole seconds, whatever the sub-second part of the entry time), exactly one of <, =, > holds, and a literal with day / hour / minute / second precision denotes start padded with 0 and finish padded with 23:59:59.",
    note="Trusted: parse_datetime (regex + chrono) produces the interval; start <= finish assumed."),
- "C15": dict(engine="F", ref="5/C15",
-   technique="Kani harness on the operator table of ArithmeticOp::calc extracted each run (bounded: concrete witnesses)",
-   text="Operator dispatch of + - * / checked on 8 concrete witness pairs (symbolic f64 arithmetic does not terminate in CBMC); bounded.",
-   note="Bounded stand-in. Not covered: precedence/associativity, column independence (Display for Expr), %."),
+ "C15": dict(engine="V+F+K", ref="5/C15",
+   technique="Verus one-step tree assertions in the real parse_mul_div / parse_add_sub; Kani on the verbatim Display::fmt of Expr (shim Formatter), get_column_expr_value (shim world), the calc table and Variant literal coercions; bounded witnesses",
+   text="Unbounded (Verus): * / % and + - chains build left-associative nodes carrying the operator just read. Bounded (Kani witnesses): the cache key text differs for expressions that differ in operator, brackets, later arguments or sign; a leading minus applies to columns, functions and literals; negative and fractional right-hand values are compared as numbers; operator dispatch of + - * / and totality of / and %.",
+   note="Not covered: value of %, evaluation of nested nodes by get_column_expr_value, lexer operator detection, arithmetic inside ORDER BY without WHERE."),
 
  "C05": dict(engine="V+F+K", ref="5/C05",
    technique="Kani on the verbatim bodies of Criteria::cmp / cmp_at (shim receiver types), on the positional / DESC arms of parse_order_by and on is_numeric_field over the whole Field enum; Verus contract on the real parse_order_by",
@@ -60,11 +60,11 @@ CLAIMED = {
    note="Only the ORDER BY clause parser so far. Not covered: that buffered rows come out in Criteria order (TopN/BTreeMap out of reach), "
         "numeric/date key comparison."),
 
- "C12": dict(engine="F", ref="5/C12",
+ "C12": dict(engine="F+K", ref="5/C12",
    technique="Kani harnesses on the glob and LIKE escape tables (alternation literal + arm table) extracted from glob.rs each run, exhaustive over printable ASCII",
    text="For each of the 95 printable ASCII characters the image under capture-then-map of convert_glob_to_pattern / convert_like_to_pattern "
         "is proved to be the wildcard expansion, or backslash+character for every regex metacharacter, or the character itself; no captured "
-        "token reaches the error arm. Exhaustive over the property's alphabet.",
+        "token reaches the error arm. Exhaustive over the property's alphabet. Also: the regex cache keys of the glob / regex / LIKE arms are distinct for the same text; operator spellings and the negation table (cross-listed).",
    note="Trusted: regex::Regex::replace_all semantics, anchoring and (?i), the conforms string arm and its regex cache."),
  "C14": dict(engine="F", ref="5/C14",
    technique="Kani harnesses on the suffix ladder of parse_filesize extracted rung by rung each run",
@@ -74,7 +74,7 @@ CLAIMED = {
    note="Multiplier obligations are bounded (n < 65536). Trusted: lower-casing, slicing, str::parse. Not covered: fractional literals, format_filesize."),
 
  "C09": dict(engine="K+F", ref="5/C09",
-   technique="Kani harnesses on escape_html (real function) and on the format templates of the HTML and flat formatters (format! replaced by concatenation), bounded values",
+   technique="Kani harnesses on escape_html (real function), on the format templates of the HTML and flat formatters (format! replaced by concatenation), and on the verbatim bodies of write_row and the ordered-output loop hosted on shim types; bounded values",
    text="escape_html is proved on every single ASCII character (no raw & < >, decodes to itself) and on multi-character witnesses; the cell "
         "templates of the HTML and tabs/lines/list writers (extracted from the format! calls each run) and the frame literals are "
         "checked on concrete values. All bounded, labelled as such.",
@@ -89,10 +89,10 @@ CLAIMED = {
    note="Not covered: whitespace-split invariance, bracket styles, optional tokens, root-option aliases, function aliases (symbolic lexing infeasible)."),
 
  "C16": dict(engine="F", ref="5/C16",
-   technique="Kani on the string arms of function::get_value copied verbatim against shim Variant types, concrete witness arguments (bounded)",
+   technique="Kani on the string arms of function::get_value and on the body of get_function_value copied verbatim against shim types, concrete witness arguments (bounded)",
    text="SUBSTR / LENGTH / COALESCE / CONCAT / CONCAT_WS / REPLACE / TRIM arms, extracted verbatim each run, are executed by CBMC on 27 concrete "
         "witnesses covering 1-based and negative positions, optional length, character (not byte) length, and ill-typed arguments "
-        "(empty value, no panic). Bounded stand-in: labelled as such.",
+        "(empty value, no panic), and F(G(x), a, b) applies F to the values of its arguments in order. Bounded stand-in: labelled as such.",
    note="Concrete witnesses only. Not covered: other functions, composition, numeric formatting."),
 }
 PENDING = "no contract-based check built yet in this revision (planned: DESIGN.md section 5)"
